@@ -29,7 +29,7 @@ def extra(ctx, rep):
     sites = [s for s in modrule.scan_modulo_sites(ix, lambda m: m.relpath.startswith("pennylane/ops/") or m.relpath.startswith("pennylane/templates/"))
              if _in_operator_method(s.func)]
     n_sites, n_sinks, n_proved = modrule.report_sites(ix, rep, RULE, sites)
-    rep.floor("angle reductions (% k*pi) inside operator-class methods", n_sites, 1)
-    rep.floor("(reduction, gate parameter) sinks in operator-class methods", n_sinks, 1)
-    rep.floor("R-C03-mod sinks proved", n_proved, 1)
+    rep.floor("angle reductions (% k*pi) inside operator-class methods", n_sites, 21)
+    rep.floor("(reduction, gate parameter) sinks in operator-class methods", n_sinks, 26)
+    rep.floor("R-C03-mod sinks proved", n_proved, 26)
     return rep
